@@ -352,6 +352,10 @@ impl Image {
         if !self.is_closed() {
             let mut fragments_read = 0;
             let initial_position = self.subscriber_position.get();
+            if initial_position >= limit_position {
+                // nothing may be consumed; also keeps the i32 narrowing of limit_offset below within range
+                return 0;
+            }
             let initial_offset = (initial_position & self.term_length_mask as i64) as i32;
             let index = log_buffer_descriptor::index_by_position(initial_position, self.position_bits_to_shift);
             assert!((0..log_buffer_descriptor::PARTITION_COUNT).contains(&index));
@@ -508,6 +512,10 @@ impl Image {
         if !self.is_closed() {
             let mut fragments_read = 0;
             let mut initial_position = self.subscriber_position.get();
+            if initial_position >= max_position {
+                // nothing may be consumed; also keeps the i32 narrowing of end_offset below within range
+                return 0;
+            }
             let mut initial_offset: Index = initial_position as Index & self.term_length_mask;
             let index = log_buffer_descriptor::index_by_position(initial_position, self.position_bits_to_shift);
             assert!((0..log_buffer_descriptor::PARTITION_COUNT).contains(&index));
@@ -682,7 +690,7 @@ impl Image {
             let index = log_buffer_descriptor::index_by_position(position, self.position_bits_to_shift);
             assert!((0..log_buffer_descriptor::PARTITION_COUNT).contains(&index));
             let term_buffer = self.term_buffers[index as usize];
-            let limit_offset: Index = min(term_offset + block_length_limit, term_buffer.capacity());
+            let limit_offset: Index = min(term_offset.saturating_add(block_length_limit), term_buffer.capacity());
             let resulting_offset: Index = scan(&term_buffer, term_offset, limit_offset);
             let length: Index = resulting_offset - term_offset;
 
